@@ -30,9 +30,30 @@ pub fn convert(f: &f::Layout) -> Result<s::Layout, String> {
     adjust_repeats(&mut res, &from_table, &alias_mappings, fm)?;
   }
   
+  // The mapper requires the keys of a trigger, and of an output, to be distinct.
+  for sm in &res {
+    if has_duplicate_key(&sm.from) {
+      return Err(format!("Mapping from {:?} to {:?} uses the same key more than once in its `from`", sm.from, sm.to));
+    }
+    if has_duplicate_key(&sm.to) {
+      return Err(format!("Mapping from {:?} to {:?} uses the same key more than once in its `to`", sm.from, sm.to));
+    }
+  }
+  
   Ok(s::Layout {
     mappings: res
   })
+}
+
+fn has_duplicate_key(keys: &Vec<KeyCode>) -> bool {
+  for i in 0 .. keys.len() {
+    for j in i+1 .. keys.len() {
+      if keys[i] == keys[j] {
+        return true;
+      }
+    }
+  }
+  false
 }
 
 fn adjust_repeats<'a>(res: &mut Vec<s::Mapping>, from_table: &HashMap<FromSet, Vec<usize>>, alias_mappings: &'a HashMap<String, Vec<&'a f::AliasMapping>>, fm: &f::Mapping) -> Result<(), String> {
